@@ -330,7 +330,7 @@ func (c *RootConfig) Initialize(ctx context.Context) error {
 		}
 		parentPkgConfig := c.Packages[recursivePackageName]
 		for _, subpkg := range subpkgs {
-			exclude, err := c.ShouldExcludeSubpkg(subpkg)
+			exclude, err := parentPkgConfig.Config.ShouldExcludeSubpkg(subpkg)
 			if err != nil {
 				return fmt.Errorf("evaluating `exclude-subpkg-regex` of %s: %w", recursivePackageName, err)
 			}
